@@ -80,7 +80,15 @@ RouteTags(r) ==
           : t \in {t \in DOMAIN r.sym : ~r.sym[t].thrown /\
               \E c \in DOMAIN r.latA : Integral(r.latA[c]) /\ Integral(r.sym[t].lat[c]) /\ ~SameCost(r.latA[c], r.sym[t].lat[c], r.P)}}
 VpscTags(r) == (IF r.A # r.B THEN {"repeat-solver-positions-differ"} ELSE {})
-               \cup (IF ~r.shape \/ r.devE12 > 1000 THEN {"translated-solution-differs"} ELSE {})
+               \* (r.againE9 > 0: somewhere in this history a solve() repeated at once still moved a variable, i.e. IncSolver::solve() had stopped
+               \*  before its own fixpoint -- the early exit of F8/F54; where it stops depends on cost magnitudes and on the order of blocks, so
+               \*  those records are tagged apart)
+               \cup (IF ~r.shape \/ r.devE12 > 1000
+                     THEN {IF r.againE9 > 1 THEN "translated-solution-differs:incremental-solver-stops-before-its-fixpoint" ELSE "translated-solution-differs"} ELSE {})
+               \* the optimum is unique, so a relabelled and shuffled copy of the problem must give the same placement (1e-6)
+               \cup (IF r.ordJudged /\ r.ordIncE9 > 1000
+                     THEN {IF r.againE9 > 1 THEN "solution-depends-on-order:incremental-solver-stops-before-its-fixpoint" ELSE "solution-depends-on-order:incremental-solver"} ELSE {})
+               \cup (IF r.ordJudged /\ r.ordStaticE9 > 1000 THEN {"solution-depends-on-order:static-solver"} ELSE {})
 LayoutTags(r) == IF r.thrown THEN {} ELSE IF r.repeatMaxDiffE9 > 1 THEN {"repeat-layout-differs"} ELSE {}
 Tags(r) == IF r.kind = "route" THEN RouteTags(r) ELSE IF r.kind = "vpsc" THEN VpscTags(r) ELSE LayoutTags(r)
 VARIABLES k, phase, bad
